@@ -4,7 +4,7 @@ Line-protocol driver for the Devs model (C14, C15, C18-devs).
 One output line per input line.  See harness/c14.py for the producer.
 
   scenario devs|abm         reset
-  prog a cmd ; cmd ; …      define program a        (cmd: abs t p a | rel d p a | cancel k | drop k)
+  prog a cmd ; cmd ; …      define program a        (cmd: abs t p a | rel d p a | cancel k | drop k | halt)
   stepprog cmd ; …          define the user's step body
   setup | reset              (reset = Simulator.reset() followed by a fresh model: back to `init`)
   abs t p a | rel d p a | cancel k | drop k
@@ -17,6 +17,7 @@ def parseCmd : List String → Option Cmd
   | ["abs", t, p, a] => do pure (.schedAbs (← t.toInt?) (← p.toNat?) (← a.toNat?))
   | ["cancel", k] => do pure (.cancel (← k.toNat?))
   | ["drop", k] => do pure (.drop (← k.toNat?))
+  | ["halt"] => some .halt
   | _ => none
 
 def words (s : String) : List String := (s.splitOn " ").filter (· ≠ "")
